@@ -118,6 +118,10 @@ type Case struct {
 	// Loose: groups of stops whose plan units form a plan-all unit that does NOT require one vehicle
 	// (NewPlanAllPlanUnits(false, …): public model API, no JSON equivalent); added to the model after the factory built it
 	Loose [][]int `json:"loose,omitempty"`
+	// ClaimMetric: the travel durations come from points in the plane (a metric), nothing bends them afterwards, and the
+	// harness declares so through the model API (SetSatisfiesTriangleInequality(true) — no JSON equivalent): the engine then
+	// skips the latest-start / latest-end exact checks
+	ClaimMetric bool `json:"claim_metric,omitempty"`
 }
 
 type CSolve struct {
@@ -146,6 +150,8 @@ type Profile struct {
 	ForceMix                                                                        bool // mixing items on most stops, units of three stops with items
 	GroupTrap                                                                       bool // a stop group whose members can only be removed in reverse order
 	Loose                                                                           bool // plan-all units over several vehicles (API only)
+	Metric                                                                          bool // travel durations from points in the plane, declared metric through the API
+	MultiRes                                                                        bool // several capacity resources, quantities of both signs, small and large vehicles
 	Trap                                                                            bool // removal trap (see Case.Trap)
 	ForceWindows                                                                    bool // windows, wait limits and a non-metric matrix always on
 	ForceUnordered                                                                  bool // at least one multi-stop unit with several allowed orders
@@ -204,13 +210,13 @@ func genCase(rng *rand.Rand, p Profile) *Case {
 	n := 2 + rng.Intn(p.MaxStops-1)
 	nv := 1 + rng.Intn(p.MaxVehicles)
 	resources := []string{"default"}
-	if on(p.Capacity, 3) {
+	if on(p.Capacity, 3) || p.MultiRes {
 		resources = []string{"w", "v"}
 		if rng.Intn(2) == 0 {
 			resources = append(resources, "z")
 		}
 	}
-	useCap := on(p.Capacity, 2)
+	useCap := on(p.Capacity, 2) || p.MultiRes
 	useWin := on(p.Windows, 2) || p.ForceWindows
 	usePrec := on(p.Precedence, 2)
 	if p.ForceUnordered || p.ForcePrec {
@@ -483,6 +489,9 @@ func genCase(rng *rand.Rand, p Profile) *Case {
 				if p.Tight {
 					ve.Cap[r] = 3 + rng.Intn(5)
 				}
+				if p.MultiRes && v > 0 && rng.Intn(2) == 0 {
+					ve.Cap[r] = 1 + rng.Intn(3) // smaller than some single stop's quantity (the first vehicle stays large)
+				}
 			}
 			if rng.Intn(3) == 0 {
 				ve.StartLevel = map[string]int{}
@@ -554,7 +563,7 @@ func genCase(rng *rand.Rand, p Profile) *Case {
 		c.feature("max_wait_stop")
 	}
 	m := c.measureSize()
-	nonMetric := on(p.NonMetric, 3) || p.ForceWindows
+	nonMetric := (on(p.NonMetric, 3) || p.ForceWindows) && !p.Metric
 	if nonMetric {
 		c.feature("non-metric")
 	}
@@ -590,7 +599,7 @@ func genCase(rng *rand.Rand, p Profile) *Case {
 	}
 	// arrival-neutral detours: a zero-duration stop x that can be visited between a and b without changing
 	// the arrival at b (the branch where the wait estimates stop walking the route early)
-	if c.Dur != nil && n >= 3 && (rng.Intn(3) == 0 || (p.ForceWindows && rng.Intn(2) == 0) || p.ForcePrec) {
+	if c.Dur != nil && n >= 3 && !p.Metric && (rng.Intn(3) == 0 || (p.ForceWindows && rng.Intn(2) == 0) || p.ForcePrec) {
 		c.feature("neutral-detour")
 		for k := 0; k < 1+rng.Intn(3); k++ {
 			pm := rng.Perm(n)
@@ -870,6 +879,18 @@ func genCase(rng *rand.Rand, p Profile) *Case {
 				c.Dist[j][idx] = 0
 			}
 		}
+	}
+	hasInitial := false
+	for _, ve := range c.Vehicles {
+		if len(ve.Initial) > 0 {
+			hasInitial = true
+		}
+	}
+	// (not together with initial stops: under the claim the engine does not check initial routes against windows or the
+	// vehicle's end at all — E35, kept as a corpus case)
+	if !nonMetric && !hasInitial && c.Dur != nil && len(c.DurGroups) == 0 && len(c.Neutral) == 0 && len(c.Trap) == 0 && (rng.Intn(2) == 0 || p.Metric) {
+		c.ClaimMetric = true
+		c.feature("claims-triangle-inequality")
 	}
 	c.Features = uniq(c.Features)
 	return c
